@@ -202,22 +202,34 @@ func (c13) Input(inp interface{}) Sx {
 func c13Scripts(in c13In) (scripts []connScript, good map[int]bool, resumed map[int]bool) {
 	good, resumed = map[int]bool{}, map[int]bool{}
 	mechs := []string{"PLAIN"}
-	open1 := []sItem{hdrItem(), {T: "features", Mechs: mechs}}
+	// the groups up to the features that carry the SASL mechanisms
+	pre := func() [][]sItem {
+		if in.TLS {
+			return [][]sItem{{hdrItem(), {T: "features", TLS: 2}}, {{T: "proceed"}}, {hdrItem(), {T: "features", Mechs: mechs}}}
+		}
+		return [][]sItem{{hdrItem(), {T: "features", Mechs: mechs}}}
+	}
 	fail := func(kind string) connScript {
 		rep := sItem{T: "message", N: 1}
-		if kind == "permanent" {
+		switch kind {
+		case "permanent":
 			rep = sItem{T: "saslfailure"}
-		}
-		if kind == "transientdrop" {
+		case "transientdrop":
 			// unexpected reply, then the server cuts the connection instead of closing the stream
-			return connScript{Groups: [][]sItem{open1, {rep, {T: "wait", N: 3}, {T: "eof"}}}}
+			return connScript{Groups: append(pre(), []sItem{rep, {T: "wait", N: 3}, {T: "eof"}})}
+		case "cutfeatures":
+			// the server's stream header, then the connection is cut (the pause lets the client consume the header first)
+			return connScript{Groups: [][]sItem{{hdrItem(), {T: "wait", N: 25}, {T: "eof"}}}}
+		case "cutproceed":
+			// STARTTLS is offered and required; the connection is cut when the client asks for it
+			return connScript{Groups: [][]sItem{{hdrItem(), {T: "features", TLS: 2}}, {{T: "wait", N: 3}, {T: "eof"}}}}
 		}
-		return connScript{Groups: [][]sItem{open1, {rep}}, IdleDropMs: 1500}
+		return connScript{Groups: append(pre(), []sItem{rep}), IdleDropMs: 1500}
 	}
 	id := 0
 	curID := ""
 	goodConn := func(resume bool) connScript {
-		g := [][]sItem{open1, {{T: "success"}}, {hdrItem(), {T: "features", Bind: true, SM: in.SM}}}
+		g := append(pre(), []sItem{{T: "success"}}, []sItem{hdrItem(), {T: "features", Bind: true, SM: in.SM}})
 		if in.SM && curID != "" {
 			if resume {
 				g = append(g, []sItem{{T: "resumed", ID: curID}})
@@ -264,21 +276,326 @@ func c13Scripts(in c13In) (scripts []connScript, good map[int]bool, resumed map[
 	return
 }
 
+const c13StreamError = "<stream:error><system-shutdown xmlns='urn:ietf:params:xml:ns:xmpp-streams'/></stream:error>"
+
+// c13Server: what a fault sequence needs from the server side, whatever the transport. Connections are numbered
+// in the order in which the server accepted them.
+type c13Server interface {
+	address() string
+	listenerDown()
+	listenerUp() error
+	terminate(conn int, how string) // drop close serr
+	probe(conn int, id string)      // a message stanza with this id, sent on the connection
+	shutdown()
+	// sessions negotiated to the end on the connections meant to succeed, how many of them by resumption, and the
+	// connections the server saw beyond those the fault sequence calls for
+	result() (sessions, resumed, extra int)
+}
+
+// ---- TCP: the scripted server of srv.go ----
+type c13TCP struct {
+	srv     *scriptedServer
+	scripts []connScript
+	good    map[int]bool
+	resumed map[int]bool
+}
+
+func (t *c13TCP) address() string   { return t.srv.addr() }
+func (t *c13TCP) listenerDown()     { t.srv.ln.Close() }
+func (t *c13TCP) listenerUp() error { return t.srv.relisten() }
+func (t *c13TCP) shutdown()         { t.srv.stop() }
+func (t *c13TCP) terminate(conn int, how string) {
+	switch how {
+	case "drop":
+		t.srv.drop(conn)
+	case "serr":
+		// RFC 6120 4.9.1.1: the error, the closing tag; the scripted server ends the TCP connection when the client
+		// answers with its own closing tag
+		t.srv.push(conn, c13StreamError+"</stream:stream>")
+	default:
+		t.srv.push(conn, "</stream:stream>")
+	}
+}
+func (t *c13TCP) probe(conn int, id string) {
+	t.srv.push(conn, fmt.Sprintf("<message id='%s' from='peer@%s'><body>probe</body></message>", id, srvDomain))
+}
+func (t *c13TCP) result() (sessions, resumed, extra int) {
+	logs := t.srv.snapshot()
+	for i, lg := range logs {
+		if t.good[i] {
+			// the negotiation on a good script completed if the client went on to use the session:
+			// count connections on which every scripted group was consumed
+			n := 0
+			for _, e := range lg.Elems {
+				switch e.Kind {
+				case "open", "starttls", "auth", "bind", "resume", "enable":
+					n++
+				}
+			}
+			if n >= len(t.scripts[i].Groups) {
+				sessions++
+				if t.resumed[i] {
+					resumed++
+				}
+			}
+		}
+	}
+	if len(logs) > len(t.scripts) {
+		extra = len(logs) - len(t.scripts)
+	}
+	return
+}
+
+// ---- WebSocket: a small RFC 7395 server (SASL PLAIN, resource binding; no stream management) ----
+type c13WS struct {
+	mu       sync.Mutex
+	addr     string
+	ln       net.Listener
+	plan     []string // per accepted WebSocket connection: good transient permanent
+	raw      []net.Conn
+	ws       map[int]*websocket.Conn // connection number -> established session
+	accepted int
+	sessions int
+	ctx      context.Context
+	cancel   context.CancelFunc
+}
+
+type c13Listener struct {
+	net.Listener
+	s *c13WS
+}
+
+func (l c13Listener) Accept() (net.Conn, error) {
+	c, err := l.Listener.Accept()
+	if err == nil {
+		l.s.mu.Lock()
+		l.s.raw = append(l.s.raw, c)
+		l.s.mu.Unlock()
+	}
+	return c, err
+}
+
+func c13WSPlan(in c13In) (plan []string) {
+	switch in.First {
+	case "":
+		plan = append(plan, "good")
+	case "transient", "permanent":
+		return []string{in.First}
+	default:
+		return nil
+	}
+	for _, rd := range in.Rounds {
+		for _, f := range rd.Fails {
+			plan = append(plan, f)
+			if f == "permanent" {
+				return
+			}
+		}
+		plan = append(plan, "good")
+	}
+	return
+}
+
+func startC13WS(plan []string) (*c13WS, error) {
+	ln, err := listenLoopback()
+	if err != nil {
+		return nil, err
+	}
+	s := &c13WS{plan: plan, ws: map[int]*websocket.Conn{}, addr: ln.Addr().String()}
+	s.ctx, s.cancel = context.WithCancel(context.Background())
+	s.serveOn(ln)
+	return s, nil
+}
+
+func (s *c13WS) serveOn(ln net.Listener) {
+	s.mu.Lock()
+	s.ln = ln
+	s.mu.Unlock()
+	go (&http.Server{Handler: http.HandlerFunc(s.handle)}).Serve(c13Listener{ln, s})
+}
+
+func c13XMLName(msg []byte) (name, id string) {
+	d := xml.NewDecoder(strings.NewReader(string(msg)))
+	for {
+		tok, err := d.Token()
+		if err != nil {
+			return "", ""
+		}
+		if se, ok := tok.(xml.StartElement); ok {
+			for _, a := range se.Attr {
+				if a.Name.Local == "id" {
+					id = a.Value
+				}
+			}
+			return se.Name.Local, id
+		}
+	}
+}
+
+func (s *c13WS) handle(w http.ResponseWriter, r *http.Request) {
+	c, err := websocket.Accept(w, r, &websocket.AcceptOptions{Subprotocols: []string{"xmpp"}})
+	if err != nil {
+		return
+	}
+	defer c.Close(websocket.StatusNormalClosure, "")
+	s.mu.Lock()
+	idx := s.accepted
+	s.accepted++
+	kind := ""
+	if idx < len(s.plan) {
+		kind = s.plan[idx]
+	}
+	s.mu.Unlock()
+	if kind == "" {
+		return // a connection the fault sequence does not call for
+	}
+	send := func(str string) { c.Write(s.ctx, websocket.MessageText, []byte(str)) }
+	expect := func(local string) (string, bool) {
+		for {
+			_, msg, err := c.Read(s.ctx)
+			if err != nil {
+				return "", false
+			}
+			if n, id := c13XMLName(msg); n == local {
+				return id, true
+			}
+		}
+	}
+	const open = "<open xmlns='urn:ietf:params:xml:ns:xmpp-framing' from='" + srvDomain + "' id='ws' version='1.0'/>"
+	if _, ok := expect("open"); !ok {
+		return
+	}
+	send(open)
+	send("<stream:features xmlns:stream='http://etherx.jabber.org/streams'><mechanisms xmlns='urn:ietf:params:xml:ns:xmpp-sasl'><mechanism>PLAIN</mechanism></mechanisms></stream:features>")
+	if _, ok := expect("auth"); !ok {
+		return
+	}
+	switch kind {
+	case "permanent":
+		send("<failure xmlns='urn:ietf:params:xml:ns:xmpp-sasl'><not-authorized/></failure>")
+		expect("close")
+		return
+	case "transient":
+		send("<message xmlns='jabber:client' id='1' from='peer@" + srvDomain + "/r'><body>hello 1</body></message>")
+		expect("close")
+		return
+	}
+	send("<success xmlns='urn:ietf:params:xml:ns:xmpp-sasl'/>")
+	if _, ok := expect("open"); !ok {
+		return
+	}
+	send(open)
+	send("<stream:features xmlns:stream='http://etherx.jabber.org/streams'><bind xmlns='urn:ietf:params:xml:ns:xmpp-bind'/></stream:features>")
+	id, ok := expect("iq")
+	if !ok {
+		return
+	}
+	s.mu.Lock()
+	s.ws[idx] = c
+	s.sessions++
+	s.mu.Unlock()
+	send(fmt.Sprintf("<iq xmlns='jabber:client' type='result' id='%s'><bind xmlns='urn:ietf:params:xml:ns:xmpp-bind'><jid>user@%s/r</jid></bind></iq>", id, srvDomain))
+	for {
+		if _, _, err := c.Read(s.ctx); err != nil {
+			return
+		}
+	}
+}
+
+func (s *c13WS) address() string { return "ws://" + s.addr + "/xmpp-websocket" }
+func (s *c13WS) listenerDown() {
+	s.mu.Lock()
+	s.ln.Close()
+	s.mu.Unlock()
+}
+func (s *c13WS) listenerUp() error {
+	for i := 0; i < 600; i++ {
+		ln, err := netListen(s.addr)
+		if err == nil {
+			s.serveOn(ln)
+			return nil
+		}
+		time.Sleep(2 * time.Millisecond)
+	}
+	return fmt.Errorf("cannot listen on %s again", s.addr)
+}
+func (s *c13WS) cut(fin bool) {
+	s.mu.Lock()
+	defer s.mu.Unlock()
+	for _, c := range s.raw {
+		if tc, ok := c.(*net.TCPConn); ok && !fin {
+			tc.SetLinger(0)
+		}
+		c.Close()
+	}
+	s.raw = nil
+}
+func (s *c13WS) terminate(conn int, how string) {
+	if how == "serr" {
+		s.mu.Lock()
+		c := s.ws[conn]
+		s.mu.Unlock()
+		if c != nil {
+			c.Write(s.ctx, websocket.MessageText, []byte("<stream:error xmlns:stream='http://etherx.jabber.org/streams'><system-shutdown xmlns='urn:ietf:params:xml:ns:xmpp-streams'/></stream:error>"))
+			c.Write(s.ctx, websocket.MessageText, []byte("<close xmlns='urn:ietf:params:xml:ns:xmpp-framing'/>"))
+			time.Sleep(10 * time.Millisecond)
+		}
+		s.cut(true)
+		return
+	}
+	s.cut(false)
+}
+func (s *c13WS) probe(conn int, id string) {
+	s.mu.Lock()
+	c := s.ws[conn]
+	s.mu.Unlock()
+	if c != nil {
+		c.Write(s.ctx, websocket.MessageText, []byte(fmt.Sprintf("<message xmlns='jabber:client' id='%s' from='peer@%s'><body>probe</body></message>", id, srvDomain)))
+	}
+}
+func (s *c13WS) shutdown() {
+	s.listenerDown()
+	s.cancel()
+	s.cut(false)
+}
+func (s *c13WS) result() (sessions, resumed, extra int) {
+	s.mu.Lock()
+	defer s.mu.Unlock()
+	if s.accepted > len(s.plan) {
+		extra = s.accepted - len(s.plan)
+	}
+	return s.sessions, 0, extra
+}
+
 func (c13) Run(inp interface{}) Sx {
 	in := inp.(c13In)
-	scripts, good, resumedSet := c13Scripts(in)
-	srv, err := startScriptedServer(scripts)
-	if err != nil {
-		return L(SBytes("listen-failed"))
+	var srv c13Server
+	if in.WS {
+		w, err := startC13WS(c13WSPlan(in))
+		if err != nil {
+			return L(SBytes("listen-failed"))
+		}
+		srv = w
+	} else {
+		scripts, good, resumedSet := c13Scripts(in)
+		s, err := startScriptedServer(scripts)
+		if err != nil {
+			return L(SBytes("listen-failed"))
+		}
+		srv = &c13TCP{srv: s, scripts: scripts, good: good, resumed: resumedSet}
 	}
-	defer srv.stop()
+	defer srv.shutdown()
 	if in.First == "refused" {
-		srv.ln.Close()
+		srv.listenerDown()
 	}
 	cfg := &xmpp.Config{
-		TransportConfiguration: xmpp.TransportConfiguration{Address: srv.addr(), Domain: srvDomain, ConnectTimeout: 1},
-		Jid:                    "user@" + srvDomain, Credential: xmpp.Password("secret"), Insecure: true,
+		TransportConfiguration: xmpp.TransportConfiguration{Address: srv.address(), Domain: srvDomain, ConnectTimeout: 1},
+		Jid:                    "user@" + srvDomain, Credential: xmpp.Password("secret"), Insecure: !in.TLS,
 		StreamManagementEnable: in.SM, ConnectTimeout: 1,
+	}
+	if in.TLS {
+		initCerts()
+		cfg.TLSConfig = &tls.Config{RootCAs: caPool}
 	}
 	if in.KaMs > 0 {
 		cfg.KeepaliveInterval = time.Duration(in.KaMs) * time.Millisecond
@@ -334,7 +651,7 @@ func (c13) Run(inp interface{}) Sx {
 	probeOK := 0
 	probe := func(connIdx, k int) {
 		id := fmt.Sprintf("probe-%d", k)
-		srv.push(connIdx, fmt.Sprintf("<message id='%s' from='peer@%s'><body>probe</body></message>", id, srvDomain))
+		srv.probe(connIdx, id)
 		deadline := time.Now().Add(2 * time.Second)
 		for time.Now().Before(deadline) {
 			mu.Lock()
@@ -351,6 +668,7 @@ func (c13) Run(inp interface{}) Sx {
 	connIdx := 0 // index of the server connection carrying the current session
 	sessions := 0
 	dead := false
+	settle := time.Duration(0)
 	if in.First == "" {
 		if waitPost(1, 5*time.Second) {
 			sessions = 1
@@ -367,21 +685,27 @@ func (c13) Run(inp interface{}) Sx {
 				break
 			}
 			if rd.RefuseMs > 0 {
-				srv.ln.Close()
+				srv.listenerDown()
 			}
-			if rd.Term == "drop" {
-				srv.drop(connIdx)
-			} else {
-				srv.push(connIdx, "</stream:stream>")
+			srv.terminate(connIdx, rd.Term)
+			if rd.Term == "serr" && settle < 300*time.Millisecond {
+				// the receiver that reported the stream error is still there when the manager has reconnected
+				// from inside its handler: give it the time to show what it does next
+				settle = 300 * time.Millisecond
 			}
 			if rd.RefuseMs > 0 {
 				time.Sleep(time.Duration(rd.RefuseMs) * time.Millisecond)
-				if srv.relisten() != nil {
+				if srv.listenerUp() != nil {
 					return L(SBytes("relisten-failed"))
 				}
 			}
 			for _, f := range rd.Fails {
 				connIdx++
+				if c13Cut(f) {
+					// a cut connection keeps Transport.Close waiting for ConnectTimeout (1 s): give a
+					// second, concurrent retry loop (if the code starts one) the time to show itself
+					settle = 1600 * time.Millisecond
+				}
 				if f == "permanent" {
 					dead = true
 					break rounds
@@ -406,21 +730,11 @@ func (c13) Run(inp interface{}) Sx {
 		case <-time.After(6 * time.Second):
 		}
 	}
-	if dead {
+	if dead && settle < 400*time.Millisecond {
 		// the retry loop must have ended: no further connection is attempted
-		time.Sleep(400 * time.Millisecond)
+		settle = 400 * time.Millisecond
 	}
-	for _, rd := range in.Rounds {
-		for _, f := range rd.Fails {
-			if f == "transientdrop" {
-				// a cut connection keeps Transport.Close waiting for ConnectTimeout (1 s): give a
-				// second, concurrent retry loop (if the code starts one) the time to show itself
-				time.Sleep(1600 * time.Millisecond)
-				break
-			}
-		}
-	}
-	extra := 0
+	time.Sleep(settle)
 	if stoppedIn && !returned {
 		// Stop has been called from a PostConnect callback: Run must return on its own
 		select {
@@ -442,29 +756,7 @@ func (c13) Run(inp interface{}) Sx {
 		}
 	}
 	time.Sleep(5 * time.Millisecond)
-	logs := srv.snapshot()
-	srvSessions, srvResumed := 0, 0
-	for i, lg := range logs {
-		if good[i] {
-			// the negotiation on a good script completed if the client went on to use the session:
-			// count connections on which every scripted group was consumed
-			n := 0
-			for _, e := range lg.Elems {
-				if e.Kind == "open" || e.Kind == "auth" || e.Kind == "bind" || e.Kind == "resume" || e.Kind == "enable" {
-					n++
-				}
-			}
-			if n >= len(scripts[i].Groups) {
-				srvSessions++
-				if resumedSet[i] {
-					srvResumed++
-				}
-			}
-		}
-	}
-	if len(logs) > len(scripts) {
-		extra = len(logs) - len(scripts)
-	}
+	srvSessions, srvResumed, extra := srv.result()
 	mu.Lock()
 	p := post
 	mu.Unlock()
@@ -546,7 +838,13 @@ func cmpWord(a, b int64) string {
 func (c13) Key(inp interface{}) (string, bool) {
 	in := inp.(c13In)
 	var b strings.Builder
-	fmt.Fprintf(&b, "sm%v first=%s|", in.SM, in.First)
+	fmt.Fprintf(&b, "sm%v tls%v ws%v first=%s|", in.SM, in.TLS, in.WS, in.First)
+	if in.TLS {
+		hist("tls-mandatory")
+	}
+	if in.WS {
+		hist("websocket")
+	}
 	nt := false
 	for _, rd := range in.Rounds {
 		fmt.Fprintf(&b, "%s r%v f%v res%v;", rd.Term, rd.RefuseMs > 0, rd.Fails, rd.Resume)
